@@ -57,11 +57,18 @@ FeatSets == {FeatAll, <<>>,
              <<"callee:call_canceling", "callee:progressive_call_invocations", "caller:progressive_call_invocations">>,
              <<"caller:progressive_call_invocations", "callee:progressive_call_invocations">>}
 
+\* payload passthru mode (Mode = "ppt"): sessions that announced it for every role, for some, for none
+PptAll   == <<"publisher:payload_passthru_mode", "caller:payload_passthru_mode", "callee:payload_passthru_mode">>
+FeatPpt  == {FeatAll \o PptAll, FeatAll \o PptAll, FeatAll,
+             <<"callee:call_canceling", "callee:progressive_call_results">> \o PptAll,
+             <<"callee:call_canceling", "callee:progressive_call_results", "callee:payload_passthru_mode">>,
+             <<"callee:call_canceling", "callee:progressive_call_results", "caller:payload_passthru_mode", "publisher:payload_passthru_mode">>}
+
 Users == <<[id |-> "alice", role |-> "user"], [id |-> "bob", role |-> "admin"], [id |-> "carol", role |-> "user"]>>
 
 O0 == [ack |-> FALSE, xme |-> "", xl |-> <<>>, el |-> <<>>, hx |-> FALSE, he |-> FALSE,
        xa |-> <<>>, ea |-> <<>>, dme |-> FALSE, match |-> "", invoke |-> "", dcl |-> FALSE,
-       fwd |-> FALSE, tmo |-> 0, rprog |-> FALSE, mode |-> "", prog |-> FALSE, err |-> ""]
+       fwd |-> FALSE, tmo |-> 0, rprog |-> FALSE, mode |-> "", prog |-> FALSE, err |-> "", ppt |-> ""]
 
 F0 == [limit |-> 0, reverse |-> FALSE, from_t |-> 0, after_t |-> 0, before_t |-> 0, until_t |-> 0,
        from_p |-> 0, after_p |-> 0, before_p |-> 0, until_p |-> 0, topic |-> <<>>]
@@ -96,13 +103,14 @@ Step(i, S) ==
 \* (TLC re-evaluates LET definitions at every use).
 R(S) == {RandomElement(S)}
 W(q) == {q[RandomElement(1..Len(q))]}          \* weighted: duplicates in the sequence are weights
+PptPick(n) == IF Mode = "ppt" THEN W(<<"", "", "mqtt", "mqtt", "mqtt">>) ELSE {""}   \* (a parameter: TLC caches constant definitions)
 
 GJoin ==
   \E n \in 1..Len(Names) :
     /\ Names[n] \notin DOMAIN sess
     /\ \A m \in 1..(n-1) : Names[m] \in DOMAIN sess
     /\ \E local \in (IF Mode = "disc" THEN W(<<FALSE, FALSE, FALSE, TRUE>>) ELSE R({TRUE, FALSE})), color \in R({"red", "blue", ""}),
-          feats \in (IF Mode = "stall" THEN W(<<FeatAll, FeatAll, <<"callee:call_canceling">>, <<>>>>) ELSE R(FeatSets)),
+          feats \in (IF Mode = "stall" THEN W(<<FeatAll, FeatAll, <<"callee:call_canceling">>, <<>>>>) ELSE IF Mode = "ppt" THEN R(FeatPpt) ELSE R(FeatSets)),
           lid \in R({"u1", "u2"}), rid \in R({"alice", "bob", "carol"}) :
        \E qs \in W(IF Mode = "stall" /\ Scripted THEN <<1, 1, 2>> ELSE IF Mode = "stall" THEN <<0, 1, 1, 2, 2>> ELSE <<0>>) :
        LET s == Names[n]
@@ -228,8 +236,9 @@ GPublish ==
                 ELSE IF bad = 1 THEN BadURIs ELSE Targets) :
   \E kind \in (IF Mode \in {"disc", "stall"} THEN R({7, 8}) ELSE R(1..8)), xl \in R(SidLists), el \in R(SidLists), xa \in R(XaSet), ea \in R(EaSet),
      ack \in (IF Mode = "stall" THEN {TRUE} ELSE R(BOOLEAN)), xme \in W(<<"", "", "t", "f", "f">>),
-     dme \in (IF Mode = "disc" THEN W(<<TRUE, TRUE, TRUE, FALSE>>) ELSE W(<<FALSE, FALSE, TRUE>>)) :
-    LET o == [O0 EXCEPT !.ack = ack, !.xme = xme, !.dme = dme,
+     dme \in (IF Mode = "disc" THEN W(<<TRUE, TRUE, TRUE, FALSE>>) ELSE W(<<FALSE, FALSE, TRUE>>)),
+     ppt \in PptPick(N) :
+    LET o == [O0 EXCEPT !.ack = ack, !.xme = xme, !.dme = dme, !.ppt = ppt,
                         !.xl = IF kind \in {1, 2} THEN xl ELSE <<>>,
                         !.hx = kind \in {1, 2},
                         !.el = IF kind \in {2, 3} /\ el # <<>> THEN el ELSE <<>>,
@@ -289,8 +298,8 @@ GCall ==
   \E s \in J : \E hit \in R(1..3) :
   \E u \in R(LET routable == {t \in Targets : BestRegs(Cur, t) # {}} IN IF routable # {} /\ hit # 1 THEN routable ELSE Targets) :
   \E dme \in (IF Scripted THEN {FALSE} ELSE W(<<FALSE, FALSE, TRUE>>)), rprog \in (IF Scripted THEN {TRUE} ELSE R(BOOLEAN)),
-     tmo \in (IF Scripted THEN {0} ELSE W(<<0, 0, 1, 50, 1000>>)) :
-    LET o == [O0 EXCEPT !.dme = dme, !.rprog = rprog, !.tmo = tmo]
+     tmo \in (IF Scripted THEN {0} ELSE W(<<0, 0, 1, 50, 1000>>)), ppt \in PptPick(N) :
+    LET o == [O0 EXCEPT !.dme = dme, !.rprog = rprog, !.tmo = tmo, !.ppt = ppt]
         i == [In0 EXCEPT !.op = "call", !.s = s, !.req = N, !.uri = u, !.tag = Tag, !.o = o]
     IN IF BestRegs(Cur, u) = {}
        THEN Step(i, CallFx(Cur, s, N, u, o, Tag, <<>>, "", 0))
@@ -346,12 +355,12 @@ GAnswer ==
   LET live == {c \in DOMAIN calls : calls[c].callee \in J}
       waiting == {c \in live : calls[c].canceled} IN
   IF live = {} THEN GCancel
-  ELSE \E c \in R(IF waiting # {} THEN waiting ELSE live) : \E how \in W(<<"yield", "yield", "prog", "error">>) :
+  ELSE \E c \in R(IF waiting # {} THEN waiting ELSE live) : \E how \in W(<<"yield", "yield", "prog", "error">>), ppt \in PptPick(N) :
          LET s == calls[c].callee  inv == calls[c].inv IN
          CASE how = "error" -> LET i == [In0 EXCEPT !.op = "inverror", !.s = s, !.id = inv, !.tag = Tag, !.o = [O0 EXCEPT !.err = "app.error.failed"]]
                                IN Step(i, InvErrorFx(Cur, s, inv, "app.error.failed", Tag))
-           [] OTHER -> LET i == [In0 EXCEPT !.op = "yield", !.s = s, !.id = inv, !.tag = Tag, !.o = [O0 EXCEPT !.prog = (how = "prog")]]
-                       IN Step(i, YieldFx(Cur, s, inv, how = "prog", Tag))
+           [] OTHER -> LET i == [In0 EXCEPT !.op = "yield", !.s = s, !.id = inv, !.tag = Tag, !.o = [O0 EXCEPT !.prog = (how = "prog"), !.ppt = ppt]]
+                       IN Step(i, YieldFx(Cur, s, inv, how = "prog", ppt, Tag))
 
 GYield ==
   \E s \in J :
@@ -362,9 +371,9 @@ GYield ==
     IN \E own \in R(1..4) : \E inv \in R(IF blocked # {} /\ own # 1 THEN blocked ELSE IF mine # {} /\ own # 1 THEN mine ELSE any) :
        \* (a progressive result first, to fill the queue of a caller that does not read)
        \E prog \in (IF Scripted /\ blocked # {} /\ \E cc \in DOMAIN calls : calls[cc].inv = inv /\ calls[cc].callee = s /\ Room(Cur, cc[1])
-                    THEN {TRUE} ELSE W(<<FALSE, FALSE, TRUE>>)) :
-         LET i == [In0 EXCEPT !.op = "yield", !.s = s, !.id = inv, !.tag = Tag, !.o = [O0 EXCEPT !.prog = prog]]
-         IN Step(i, YieldFx(Cur, s, inv, prog, Tag))
+                    THEN {TRUE} ELSE W(<<FALSE, FALSE, TRUE>>)), ppt \in PptPick(N) :
+         LET i == [In0 EXCEPT !.op = "yield", !.s = s, !.id = inv, !.tag = Tag, !.o = [O0 EXCEPT !.prog = prog, !.ppt = ppt]]
+         IN Step(i, YieldFx(Cur, s, inv, prog, ppt, Tag))
 
 GInvError ==
   \E s \in J :
